@@ -192,9 +192,44 @@ impl<'tcx> Cx<'tcx> {
             return J::O(o);
         }
         if let Const::Unevaluated(uv, _) = c {
-            o.push(("named", s(self.path(uv.def))));
-            if uv.promoted.is_some() {
+            if let Some(p) = uv.promoted {
                 o.push(("promoted", J::B(true)));
+                // name the constants the promoted body mentions (e.g. `&TX_SEPARATOR`)
+                let mut names: Vec<String> = Vec::new();
+                if uv.def.is_local() {
+                    let bodies = tcx.promoted_mir(uv.def);
+                    if let Some(pb) = bodies.get(p) {
+                        for bb in pb.basic_blocks.iter() {
+                            for st in bb.statements.iter() {
+                                if let StatementKind::Assign(b) = &st.kind {
+                                    let mut ops: Vec<&Operand<'tcx>> = Vec::new();
+                                    match &b.1 {
+                                        Rvalue::Use(o, ..) | Rvalue::Cast(_, o, _) | Rvalue::Repeat(o, _) | Rvalue::UnaryOp(_, o) => ops.push(o),
+                                        Rvalue::BinaryOp(_, ab) => { ops.push(&ab.0); ops.push(&ab.1); }
+                                        Rvalue::Aggregate(_, xs) => { for x in xs.iter() { ops.push(x); } }
+                                        _ => {}
+                                    }
+                                    for op in ops {
+                                        if let Operand::Constant(ic) = op {
+                                            if let Const::Unevaluated(iuv, _) = &ic.const_ {
+                                                if iuv.promoted.is_none() {
+                                                    names.push(self.path(iuv.def));
+                                                }
+                                            }
+                                        }
+                                    }
+                                }
+                            }
+                        }
+                    }
+                }
+                if names.len() == 1 {
+                    o.push(("named", s(names[0].clone())));
+                } else if !names.is_empty() {
+                    o.push(("pnames", J::A(names.into_iter().map(|n| s(n)).collect())));
+                }
+            } else {
+                o.push(("named", s(self.path(uv.def))));
             }
         }
         let small = matches!(ty.kind(), ty::Bool | ty::Char | ty::Int(_) | ty::Uint(_));
